@@ -29,13 +29,18 @@ consequence of "a grace period that started after `r` has completed".
   pointing to a node `q.head` has passed; one grace period after its removal the node is freed while
   still reachable through `q.tail`: `Neg/C12.lean` exhibits the reachable use-after-free
   (confirmed on the real code by `harness/scen/lfq.c --mode uaf-node|uaf-dummy`).
-All theorems of `Props/C12.lean` are about `helpTail = true`.
+`Cfg.destroyWalk` selects the destroy text: `true` — the current code (commit 928caa3): walk the chain
+from `q.head`, `-EPERM` iff some node is not a dummy, else free every dummy; `false` — the older
+test `head->dummy && head->next == NULL`, which answers `-EPERM` on an empty queue whose chain holds
+two dummies (`Neg/C12.lean`, `harness/scen/lfq.c --mode two-dummies`).
+All theorems of `Props/C12.lean` are about `helpTail = true`, `destroyWalk = true`.
 -/
 namespace UrcuVerif.Lfq
 
 structure Cfg where
   n : Nat              -- threads 0 … n-1 (arbitrary)
   helpTail : Bool := true
+  destroyWalk : Bool := true
 
 inductive Pc
   | idle
@@ -128,6 +133,12 @@ def quiescent (c : Cfg) (s : State) : Prop := ∀ u, u < c.n → s.pc u = .idle
 instance (c : Cfg) (s : State) : Decidable (quiescent c s) := by
   unfold quiescent
   exact Nat.decidableBallLT _ _
+
+/-- `for (node = head; node; node = node->next) if (!node->dummy) return -EPERM;` — the ghost chain length
+only bounds the walk (termination fuel); the walk itself reads memory -/
+def walkAllDummy (nx : Nat → Nat) (isD : Nat → Bool) : Nat → Nat → Bool
+  | 0, a => a == 0
+  | f+1, a => if a = 0 then true else isD a && walkAllDummy nx isD f (nx a)
 
 def tick (s : State) : State := { s with clock := s.clock + 1 }
 
@@ -237,7 +248,8 @@ def step (c : Cfg) (s : State) (t : Nat) : Label → Option (State × Out)
     else none
   | .destroy =>
     if s.pc t = .idle ∧ s.dead = false ∧ quiescent c s then
-      if s.isDummy s.head ∧ s.next s.head = 0 then
+      if (if c.destroyWalk then walkAllDummy s.next s.isDummy s.chain.length s.head = true
+          else s.isDummy s.head ∧ s.next s.head = 0) then
         some (tick { s with dead := true }, .destroyed true)
       else some (tick s, .destroyed false)
     else none
